@@ -57,3 +57,60 @@ def replay(model, kind, seed=0):
     return bool(bad or badv), {"call": "%s %s kernel, mesh %s, cutoff %g" % (model, kind, sizes[:len(pd)], cutoff),
                                "real_F2": np.array(full[1]).tolist(), "spec_F2": expect.tolist(),
                                "real_Vshell": float(full[3]), "spec_Vshell": float(tot_v / tot_w)}
+
+
+def replay_magnetic(model, seed=0):
+    """The real magnetic 2-D intensity against the documented channel sum built
+    from *non-magnetic* evaluations of the same model with every SLD replaced
+    by its effective value (numpy version of the C06 spec)."""
+    from sasmodels.core import load_model
+    from sasmodels.direct_model import call_kernel
+    rng = np.random.RandomState(seed)
+    m = load_model(model)
+    info = m.info
+    qx = np.array([0.02, 0.0, -0.03, 0.04])
+    qy = np.array([0.01, 0.05, 0.02, -0.03])
+    kern = m.make_kernel([qx, qy])
+    slds = [p.id for p in info.parameters.call_parameters if p.type == "sld"]
+    base = {}
+    for k, s in enumerate(slds):
+        base[s] = 1.0 + 1.5 * k
+    oriented = {p.name: v for p, v in zip(info.parameters.orientation_parameters, (30.0, 10.0, 25.0))}
+    mag = {}
+    for k, s in enumerate(slds):
+        mag[s + "_M0"] = 1.2 + 0.7 * k
+        mag[s + "_mtheta"] = 35.0 - 20.0 * k
+        mag[s + "_mphi"] = 60.0 + 45.0 * k
+    up_i, up_f, up_t, up_p = 0.3, 0.8, 40.0, 55.0
+    pars = dict(base, **oriented)
+    full = call_kernel(kern, dict(pars, up_frac_i=up_i, up_frac_f=up_f, up_theta=up_t, up_phi=up_p,
+                                  background=0.0, **mag))
+    ci, cf = min(max(up_i, 0), 1), min(max(up_f, 0), 1)
+    norm = max(cf, 1 - cf)
+    w = np.array([(1 - ci) * (1 - cf), (1 - ci) * cf, ci * (1 - cf), ci * cf]) / norm
+    t, p = np.radians(up_t), np.radians(up_p)
+    P = np.array([np.sin(t) * np.cos(p), np.sin(t) * np.sin(p), np.cos(t)])
+    e1 = np.array([-np.sin(p), np.cos(p), 0.0])
+    e2 = np.array([-np.cos(t) * np.cos(p), -np.cos(t) * np.sin(p), np.sin(t)])
+    expect = np.zeros_like(qx)
+    for j in range(len(qx)):
+        qh = np.array([qx[j], qy[j], 0.0]) / np.hypot(qx[j], qy[j])
+        k1 = m.make_kernel([qx[j:j + 1], qy[j:j + 1]])
+
+        def I(eff):
+            return call_kernel(k1, dict(oriented, background=0.0, **eff))[0]
+        eff = {c: {} for c in ("dd", "uu", "e1", "e2")}
+        for s in slds:
+            mt, mp = np.radians(mag[s + "_mtheta"]), np.radians(mag[s + "_mphi"])
+            M = mag[s + "_M0"] * np.array([np.sin(mt) * np.cos(mp), np.sin(mt) * np.sin(mp), np.cos(mt)])
+            Mp = M - qh * np.dot(qh, M)
+            eff["dd"][s] = base[s] - P @ Mp
+            eff["uu"][s] = base[s] + P @ Mp
+            eff["e1"][s] = e1 @ Mp
+            eff["e2"][s] = e2 @ Mp
+        expect[j] = (w[0] * I(eff["dd"]) + w[3] * I(eff["uu"])
+                     + (w[1] + w[2]) * (I(eff["e1"]) + I(eff["e2"])))
+    bad = not np.allclose(full, expect, rtol=1e-9)
+    return bool(bad), {"call": "%s 2-D magnetic kernel, up_frac_i=%g, up_frac_f=%g, up_theta=%g, up_phi=%g"
+                               % (model, up_i, up_f, up_t, up_p),
+                       "real": np.asarray(full).tolist(), "spec_channel_sum": expect.tolist()}
